@@ -40,10 +40,16 @@ def gen(c):
                 exts = [e for e in exts if e == "aki"]
             sid = rng.choice([b"", b"1234567812345678", b"issuer-id-1", rb(30)])
             revoked = rng.sample(serials, rng.randrange(0, 6)) if kind == "crl" else []
+            # per entry: reason code (-1 = no CRLReason extension, 0..10 without the unassigned 7) and invalidity date (-1 = absent)
+            if kind == "crl" and i < 2:             # every reason code once, alone (i = 0) and next to an invalidity date (i = 1)
+                revoked = list(serials)
+            rinfo = [(rng.choice([-1, -1] + [0, 1, 2, 3, 4, 5, 6, 8, 9, 10]), rng.choice([-1, -1, nb - 30, 29300])) for _ in revoked]
+            if kind == "crl" and i < 2:
+                rinfo = [(r, -1 if i == 0 else nb - 30) for r in [0, 1, 2, 3, 4, 5, 6, 8, 9, 10, -1]]
             o = dict(kind=kind, serial=rng.choice(serials), nb=nb, nbs=rng.choice([0, 1, 86399]), na=na, nas=rng.choice([0, 86399]), cn=cn, cntag=tag, org=rng.choice(["-", "4f7267", "e585ace58fb8"]),
-                     icn="526f6f74", icntag=12, iorg="-", exts=",".join(exts) or "-", sid=sid, revoked=",".join(x.hex() for x in revoked) or "-", seed=100 + i)
+                     icn="526f6f74", icntag=12, iorg="-", exts=",".join(exts) or "-", sid=sid, revoked=",".join("%s:%d:%d" % (x.hex(), r, iv) for x, (r, iv) in zip(revoked, rinfo)) or "-", seed=100 + i)
             add(**o)
-            objs.append((o, revoked))
+            objs.append((o, revoked, rinfo))
     return lines, objs, serials
 
 
@@ -54,7 +60,7 @@ def body():
     res = CL.run_script("x509drv", ["x509drv.c", "vh.c"], lines, tag="c15a", procs=8)
     execs, follow, fmeta = [], [], []
     rng = c.rng
-    for (line, evs, san), (o, revoked) in zip(res, objs):
+    for (line, evs, san), (o, revoked, rinfo) in zip(res, objs):
         key = "c15:%s:%d:serial=%s:exts=%s:nb=%s" % (o["kind"], line["id"], line["serial"][:10], o["exts"], o["nb"])
         c.count(1, key)
         if san or not evs:
@@ -92,7 +98,8 @@ def body():
                 qv = q.lstrip(b"\x00") or b"\x00"
                 is_listed = any((s.lstrip(b"\x00") or b"\x00") == qv for s in listed)
                 follow.append({"kind": "lookup", "der": CL.hx(der), "serial": CL.hx(q), "id": len(follow) + 1})
-                fmeta.append((key + ":lookup:" + q.hex(), {"listed": is_listed}))
+                er, ei = next(((r, iv) for s, (r, iv) in zip(revoked, rinfo) if (s.lstrip(b"\x00") or b"\x00") == qv), (-1, -1))
+                fmeta.append((key + ":lookup:" + q.hex(), {"listed": is_listed, "erd": o["nb"] * DAY + o["nbs"] - 3600, "ereason": er, "einv": ei}))
     res2 = CL.run_script("x509drv", ["x509drv.c", "vh.c"], follow, tag="c15b", procs=12)
     for (line, evs, san), (key, facts) in zip(res2, fmeta):
         c.count(1, key)
